@@ -556,12 +556,29 @@ func (c *Ctx) checkUnconditionalImport(imp *ssa.Function, minN int) {
 				}
 			}
 		}
+		// ... or the store write itself (a setter written in place)
+		if prefix == "" {
+			for _, op := range p.StoreOps(imp) {
+				if op.Site == site && op.Op == "Set" {
+					prefix = c.prefixName(op)
+				}
+			}
+		}
 		if prefix == "" {
 			return
 		}
 		// source fields of the written values
 		src := map[string]bool{}
+		srcArgs := append([]ssa.Value{}, site.Common().Args...)
 		for _, a := range site.Common().Args {
+			// a value marshalled in place: what is marshalled
+			if mc, ok := a.(*ssa.Call); ok {
+				if md, okd := ana.Describe(&mc.Call); okd && strings.Contains(md.Name, "Marshal") {
+					srcArgs = append(srcArgs, mc.Call.Args...)
+				}
+			}
+		}
+		for _, a := range srcArgs {
 			l := p.Leaves(a, ana.PVOpt{})
 			// elements of a ranged genesis collection: add the collection's field
 			for _, vals := range l.Vals {
